@@ -44,6 +44,7 @@ type FuncContract struct {
 	requires   []*Clause
 	ensures    []*Clause
 	assumes    []*Clause // entry assumptions NOT checked at call sites (listed as assumptions)
+	postAssumed []*Clause // postconditions given to callers but NOT checked against the body (listed as assumptions)
 	loops      map[int]*LoopContract
 	calls      map[string][]*CallClause
 	ghosts     []*GhostDef
@@ -221,7 +222,7 @@ func (p *Program) parseContractFile(file, pkgName string) error {
 			kw := strings.Fields(s)[0]
 			rest := strings.TrimSpace(strings.TrimPrefix(s, kw))
 			switch kw {
-			case "requires", "ensures", "assume":
+			case "requires", "ensures", "assume", "ensures-assumed":
 				c, err := mk(kw, rest, l.line)
 				if err != nil {
 					return err
@@ -231,6 +232,8 @@ func (p *Program) parseContractFile(file, pkgName string) error {
 					cur.requires = append(cur.requires, c)
 				case "ensures":
 					cur.ensures = append(cur.ensures, c)
+				case "ensures-assumed":
+					cur.postAssumed = append(cur.postAssumed, c)
 				default:
 					cur.assumes = append(cur.assumes, c)
 				}
